@@ -4,7 +4,7 @@ import casadi as ca
 import mpmath as mp
 import z3
 
-from ..harness import Harness, Claim, HarnessError
+from ..harness import Harness, Claim, HarnessError, StructureChanged
 from ..val import Val
 from .. import val as V
 from ..enc import Ctx, Angle
@@ -138,8 +138,11 @@ class FlowZeroRate(Harness):
         import cyecca.lie as lie
         if self.case == "w0":
             dt = ca.SX.sym("dt")
-            x1 = f(x0, a, ca.SX.zeros(3, 1), g, dt)
-            return ca.Function("flow_w0", [x0, a, g, dt], [x1, lie.SO3Quat.elem(x0[6:10]).to_Matrix()])
+            # the rate stays a run-time input (bound to exactly 0 in make_ctx): a structural zero would let CasADi drop
+            # terms such as 0 * (0/0) that a caller passing omega = 0 at run time does evaluate
+            w = ca.SX.sym("w", 3)
+            x1 = f(x0, a, w, g, dt)
+            return ca.Function("flow_w0", [x0, a, g, dt, w], [x1, lie.SO3Quat.elem(x0[6:10]).to_Matrix()])
         w = ca.SX.sym("w", 3)
         x1 = f(x0, a, w, g, 0)
         return ca.Function("flow_dt0", [x0, a, g, w], [x1, lie.SO3Quat.elem(x0[6:10]).to_Matrix()])
@@ -150,11 +153,13 @@ class FlowZeroRate(Harness):
         x0 = [Val.var(f"x{i}") for i in range(10)]
         a = [Val.var(f"acc{i}") for i in range(3)]
         last = [Val.var("dt")] if self.case == "w0" else [Val.var(f"w{i}") for i in range(3)]
+        if self.case == "w0":
+            return ctx, [x0, a, [Val.var("g")], last, [Val(0), Val(0), Val(0)]]
         return ctx, [x0, a, [Val.var("g")], last]
 
     def claims(self, outs, ins, aux):
         x1, R0 = outs
-        x0, a, g, last = ins
+        x0, a, g, last = ins[:4]
         cl = []
         if self.case == "dt0":
             return [Claim(f"identity[{i}]", x1[i][0], x0[i]) for i in range(10)]
@@ -224,7 +229,7 @@ class FunctionIsMethod(Harness):
     def build(self):
         f = strap()
         if [f.name_in(i) for i in range(f.n_in())] != ["x0", "a_b", "omega_b", "g", "dt"] or f.n_out() != 1:
-            raise HarnessError("strapdown_ins_propagate has an unexpected signature")
+            raise StructureChanged("strapdown_ins_propagate has an unexpected signature")
         x0, a, w = ca.SX.sym("x0", 10), ca.SX.sym("a", 3), ca.SX.sym("w", 3)
         g, dt = ca.SX.sym("g"), ca.SX.sym("dt")
         return ca.Function("fim", [x0, a, w, g, dt], [f(x0, a, w, g, dt), method_step(x0, a, w, g, dt)])
